@@ -19,7 +19,8 @@
                   adds inputs_offset_at(i) and pairs it with the padded predicate length.
   SIB-cached      every accessor's metadata branch returns the CommonMetadata field of its own name, and
                   CommonMetadata::compute fills each field from the accessor of the same name (prefix sums started at
-                  tx.X_offset() and advanced by element.size() with checked_add).
+                  tx.X_offset() and advanced by element.size() with checked_add); every precompute clears the cache
+                  before its first call that reads `self`, so cached values are computed by the uncached branches.
 Not decided: that slicing the encoding at the offset decodes to the field (follows from the above with C01, not
 executed).
 """
